@@ -154,6 +154,73 @@ def _collect_attrpath_order(
     return order
 
 
+def _reconcile_attrpath_order(
+    values: Sequence[Binding | Inherit],
+    order: Sequence[Binding | Inherit | _AttrpathEntry],
+) -> Sequence[Binding | Inherit | _AttrpathEntry]:
+    """Bring the recorded render order in line with the current bindings.
+
+    The order list is a cache of how the source spelled its bindings
+    (`a.b = 1;` entries keep their attrpath form).  Edits through the mapping API
+    change `values` (and nested attrpath sets) only, so entries whose binding
+    is gone are dropped and bindings the order does not know are appended,
+    attrpath-derived leaves in attrpath form.
+    """
+    if not order:
+        return values
+
+    live: dict[int, tuple[tuple[str, ...], Binding | Inherit]] = {}
+
+    def walk(prefix: tuple[str, ...], items: Sequence[Binding | Inherit]) -> None:
+        for item in items:
+            if (
+                isinstance(item, Binding)
+                and item.nested
+                and isinstance(item.value, AttributeSet)
+                and item.value.values
+                and all(isinstance(child, Binding) for child in item.value.values)
+            ):
+                walk(prefix + (item.name,), item.value.values)
+                continue
+            segments = prefix + ((item.name,) if isinstance(item, Binding) else ())
+            live[id(item)] = (segments, item)
+
+    walk((), values)
+
+    reconciled: list[Binding | Inherit | _AttrpathEntry] = []
+    seen: set[int] = set()
+    unchanged = True
+    for entry in order:
+        binding = entry.binding if isinstance(entry, _AttrpathEntry) else entry
+        hit = live.get(id(binding))
+        if hit is None:
+            if isinstance(entry, Binding) and entry.nested and any(
+                item is entry for item in values
+            ):
+                # A multi-leaf attrpath root kept as one entry: still present.
+                reconciled.append(entry)
+                for key, (segments, _item) in live.items():
+                    if segments[:1] == (entry.name,):
+                        seen.add(key)
+                continue
+            unchanged = False
+            continue
+        if isinstance(entry, _AttrpathEntry) and tuple(entry.segments) != hit[0]:
+            unchanged = False
+            continue
+        reconciled.append(entry)
+        seen.add(id(binding))
+    for key, (segments, item) in live.items():
+        if key in seen:
+            continue
+        unchanged = False
+        if isinstance(item, Binding) and len(segments) > 1:
+            reconciled.append(_AttrpathEntry(segments=segments, binding=item))
+        else:
+            reconciled.append(item)
+    return order if unchanged else reconciled
+
+
 def _expand_attrpath_binding(binding: Binding) -> list[Binding]:
     """Flatten a nested attrpath binding into leaf bindings."""
     if not isinstance(binding.value, AttributeSet):
@@ -199,6 +266,10 @@ def _render_bindings(
             try:
                 expanded = _expand_attrpath_binding(value)
             except ValueError:
+                rendered.append(value.rebuild(indent=indent, inline=inline))
+                continue
+            if not expanded:
+                # An attrpath parent emptied through the mapping API still exists.
                 rendered.append(value.rebuild(indent=indent, inline=inline))
                 continue
             for item in expanded:
@@ -354,7 +425,7 @@ class AttributeSet(TypedExpression):
 
         if self.multiline:
             before_str = format_trivia(self.before, indent=indent)
-            render_values = self.attrpath_order if self.attrpath_order else self.values
+            render_values = _reconcile_attrpath_order(self.values, self.attrpath_order)
             bindings_str = "\n".join(
                 _render_bindings(render_values, indent=indented, inline=False)
             )
@@ -371,7 +442,7 @@ class AttributeSet(TypedExpression):
             )
             return apply_trailing_trivia(set_str, self.after, indent=indent)
         else:
-            render_values = self.attrpath_order if self.attrpath_order else self.values
+            render_values = _reconcile_attrpath_order(self.values, self.attrpath_order)
             bindings_str = " ".join(
                 _render_bindings(render_values, indent=indented, inline=True)
             )
